@@ -179,6 +179,82 @@ def roundtrip(ctx, nparts=1, maxlen=3, subtype="form-data", boundary="b", ncuts=
             info.update(wire=bytes(wire).decode("latin1"), got=repr(got)[:300], bodies=repr(bodies)[:200])
     return f, tag, info
 
+FORM_NAMES = ["f", "na\u00efve", "a b", 'q"uote', "semi;colon", "\u20ac", "back\\slash", "p%41ct"]
+
+
+def formdata(ctx):
+    """FormData -> MultipartWriter -> wire -> MultipartReader: field name and filename come back
+    verbatim or in a percent-encoded form that decodes to the original; the declared size equals
+    the bytes written (header blocks with non-ASCII text included)."""
+    from urllib.parse import unquote
+
+    from aiohttp import FormData, multipart
+    from aiohttp.streams import StreamReader
+
+    warnings.simplefilter("ignore")
+    loop = install(VLoop())
+    name = ctx.pick("name", FORM_NAMES)
+    filename = ctx.pick("filename", [None] + FORM_NAMES)
+    quote = ctx.flag("quote_fields")
+    charset = ctx.pick("charset", [None, "utf-8"])
+    content = ctx.pick("content", [b"", b"data", "t\u00e9xt"])
+    fd = FormData(quote_fields=quote, charset=charset, default_to_multipart=True)
+    try:
+        fd.add_field(name, content, filename=filename)
+        fd.add_field("second", "x")
+        mw = fd()
+    except (ValueError, TypeError) as e:
+        return True, "form:refused", None
+    w = _W()
+    _run(mw.write(w))
+    wire = bytes(w.out)
+    declared = mw.size
+    info = {"name": name, "filename": filename, "quote_fields": quote, "charset": charset, "content": repr(content)}
+    if declared is not None and declared != len(wire):
+        info.update(key="size-differs-from-bytes-written:formdata", declared=declared, written=len(wire))
+        return False, "inv:size", info
+    ctype = mw.headers["Content-Type"]
+    sr = StreamReader(_Proto(), 2 ** 16, loop=loop)
+    reader = multipart.MultipartReader({"Content-Type": ctype}, sr)
+
+    async def read_all():
+        out = []
+        while True:
+            part = await reader.next()
+            if part is None:
+                break
+            out.append((part.name, part.filename, bytes(await part.read())))
+        return out
+
+    task = asyncio.Task(read_all(), loop=loop)
+    cut = ctx.pick("cut", [0, len(wire) // 3, len(wire) // 2, len(wire) - 3])
+    for piece in (wire[:cut], wire[cut:]):
+        if piece:
+            sr.feed_data(piece)
+        loop.run_ready()
+    sr.feed_eof()
+    loop.run_ready()
+    if not task.done():
+        task.cancel()
+        loop.run_ready()
+        info.update(key="reader-stuck-after-eof:formdata")
+        return False, "inv:stuck", info
+    if task.exception() is not None:
+        info.update(key=f"roundtrip-raises:{type(task.exception()).__name__}:formdata", detail=str(task.exception())[:200],
+                    wire=wire.decode("latin1")[:400])
+        return False, "inv:raise", info
+    got = task.result()
+    want_body = content if isinstance(content, bytes) else content.encode(charset or "utf-8")
+
+    def same(a, b):
+        return a == b or (a is not None and b is not None and unquote(a) == b)
+
+    if len(got) != 2 or not same(got[0][0], name) or not same(got[0][1], filename) or got[0][2] != want_body \
+            or got[1][0] != "second" or got[1][2] != b"x":
+        info.update(key="formdata-part-differs", got=repr(got)[:300], wire=wire.decode("latin1")[:400])
+        return False, "inv:differs", info
+    return True, "form:ok", None
+
 
 def termination(ctx, n=5, prefix="--b\r\n", budget=6000):
     """arbitrary bytes after an optional valid opening: the driving loop ends"""
@@ -264,6 +340,7 @@ def jobs(tier):
                         params=dict(nparts=2, maxlen=2 if quick else 3, subtype=sub, ncuts=1 if quick else 2), limits=lim))
     for n in ((3, 4, 5) if quick else (3, 4, 5, 6, 7)):
         out.append(dict(name=f"term-{n}", func="termination", params=dict(n=n), limits=lim))
+    out.append(dict(name="formdata", func="formdata", params={}, limits=lim))
     out.append(dict(name="term-raw-5", func="termination", params=dict(n=5 if quick else 7, prefix=""), limits=lim))
     for c in ("abcde", "abcdefg") + (() if quick else ("abcdefghij",)):
         out.append(dict(name=f"b64-{len(c)}", func="base64_slicing", params=dict(content=c, maxcuts=3 if quick else 4),
